@@ -59,7 +59,7 @@ func c10Pad(s *quic.QUICSpec, n int) {
 // family (frame builders, per-datagram plans, ClientHello paddings) overwrite each other.
 func c10Contradict(a, b string) bool {
 	fam := func(n string) string {
-		for _, f := range []string{"fb-", "plan-", "ch-"} {
+		for _, f := range []string{"fb-", "plan-", "ch-", "flight-"} {
 			if strings.HasPrefix(n, f) {
 				return f
 			}
@@ -72,6 +72,11 @@ func c10Contradict(a, b string) bool {
 	// a plan-rf- / plan-steps- knob carries its own frame builder (c10_planrf_test.go)
 	own := func(n string) bool { return strings.HasPrefix(n, "plan-rf-") || strings.HasPrefix(n, "plan-steps-") }
 	if own(a) && strings.HasPrefix(b, "fb-") || own(b) && strings.HasPrefix(a, "fb-") {
+		return true
+	}
+	// a flight-* knob sets the frame builder AND the per-datagram plan (c10_flight_test.go)
+	layout := func(n string) bool { return strings.HasPrefix(n, "fb-") || strings.HasPrefix(n, "plan-") }
+	if fam(a) == "flight-" && layout(b) || fam(b) == "flight-" && layout(a) {
 		return true
 	}
 	big := func(n string) bool { return n == "toklen300" }
@@ -157,6 +162,7 @@ var c10Knobs = func() []c10Knob {
 	)
 	// appended last so that the indices of the knobs above (used in replay files) stay put
 	k = append(k, c10PlanBuilderKnobs()...)
+	k = append(k, c10FlightKnobs()...)
 	return k
 }()
 
@@ -460,6 +466,10 @@ func c10Check(s *quic.QUICSpec, fl sim.Flight, dial int, prevTokens [][]byte, st
 			}
 		}
 	}
+	// ---- a flight builder's layout: which CRYPTO ranges in which datagram (c10_flight_test.go)
+	if f := c10FlightCheck(ips.FrameBuilder, dial, len(chBytes), first); f != nil {
+		return f, nil, ""
+	}
 	class = fmt.Sprintf("datagrams=%d retrans=%d pnlen=%d tok=%d dcid=%d scid=%d", len(fl.First), len(fl.Retrans), first[0].Pkt.PNLen, len(token), dl, sl)
 	return nil, token, class
 }
@@ -506,8 +516,10 @@ func c10Run(t *testing.T, cfg c10Config) c10Outcome {
 
 // c10Attribute gives one defect one key: a failure is re-keyed to the smallest configuration
 // that fails the same way (same key suffix) - the unmodified base spec; else, for a pair of
-// knobs, one of the two alone; and then the same knobs on the zero spec (last entry of
-// c10Bases) when the failure does not depend on the fingerprint.
+// knobs, one of the two alone; then, for a flight-* knob, the first knob of that lattice with the
+// same size step (c10FlightSiblings); and then the same knobs on the zero spec (last entry of
+// c10Bases) when the failure does not depend on the fingerprint, else on the first base spec of
+// c10Bases that fails the same way.
 func c10Attribute(t *testing.T, cache map[string]string, cfg c10Config, o *c10Outcome) {
 	if o.fail == nil || len(cfg.Knobs) == 0 {
 		return
@@ -538,9 +550,24 @@ func c10Attribute(t *testing.T, cache map[string]string, cfg c10Config, o *c10Ou
 			}
 		}
 	}
+	if len(red.Knobs) == 1 {
+		for _, k := range c10FlightSiblings(red.Knobs[0]) {
+			if c := (c10Config{Base: red.Base, Knobs: []int{k}}); same(c) {
+				red = c
+				break
+			}
+		}
+	}
 	if zero := len(c10Bases) - 1; red.Base != zero {
 		if c := (c10Config{Base: zero, Knobs: red.Knobs}); same(c) {
 			red = c
+		} else {
+			for b := 0; b < red.Base; b++ {
+				if c := (c10Config{Base: b, Knobs: red.Knobs}); same(c) {
+					red = c
+					break
+				}
+			}
 		}
 	}
 	o.fail.Key = red.id() + suffix
